@@ -39,7 +39,7 @@ DET_TOL_WEIGHT = 1e-1   # relative; weights move by ~Omega * 1 ns around the cro
 
 # =====================================================================================================
 # helpers on the real code
-def _seqdata(prob, ops, d):
+def _seqdata(prob, ops, d, bad=None):
     import torch
     from emu_base.pulser_adapter import HamiltonianType, SequenceData
 
@@ -47,12 +47,14 @@ def _seqdata(prob, ops, d):
     U = torch.tensor(np.asarray(prob["U"], dtype=float), dtype=torch.float64)
     c = lambda a: torch.tensor(np.asarray(a), dtype=torch.complex128)  # noqa: E731
     return SequenceData(c(prob["omega"]), c(prob["delta"]), c(prob["phi"]), lambda t: U,
-                        tuple(f"q{i}" for i in range(n)), tuple(False for _ in range(n)),
-                        [torch.tensor(np.asarray(o), dtype=torch.complex128) for o in ops], 0.0, list(prob["times"]),
+                        tuple(f"q{i}" for i in range(n)),
+                        tuple(bool(b) for b in bad) if bad else tuple(False for _ in range(n)),
+                        [torch.tensor(np.asarray(o), dtype=torch.complex128) for o in ops],
+                        0.1 if bad else 0.0, list(prob["times"]),
                         ["r", "g"] if d == 2 else ["r", "g", "x"], HamiltonianType.Rydberg)
 
 
-def _config(observables, precision=None):
+def _config(observables, precision=None, reorder=False):
     """precision=None: the default truncation precision (1e-5 per truncation) — used by the statistical runs.
     The deterministic scripted runs use 1e-8: they check the jump logic, not the truncation accuracy (with the
     default, three qutrits already deviate by ~5e-3 in occupation from the exact H_eff evolution)."""
@@ -60,8 +62,56 @@ def _config(observables, precision=None):
     kw = {} if precision is None else {"precision": precision}
     with warnings.catch_warnings():
         warnings.simplefilter("ignore")
-        return emu_mps.MPSConfig(observables=observables, log_level=logging.CRITICAL, optimize_qubit_ordering=False,
-                                 num_gpus_to_use=0, **kw)
+        return emu_mps.MPSConfig(observables=observables, log_level=logging.CRITICAL,
+                                 optimize_qubit_ordering=bool(reorder), num_gpus_to_use=0, **kw)
+
+
+_PROBE = {}
+
+
+def norm_probe(evaluation_times):
+    """An observable that records the norm of the state object the backend hands to the observables (for runs with
+    badly prepared atoms that is the padded full-register state built inside fill_results), at every fill."""
+    if "cls" not in _PROBE:
+        from pulser.backend import Observable
+        try:
+            from pulser.backend.observable import AggregationMethod
+            extra = {"default_aggregation_method": AggregationMethod.SKIP}
+        except ImportError:      # pulser-core < 1.9
+            extra = {}
+
+        class NormProbe(Observable):
+            def __init__(self, evaluation_times):
+                super().__init__(evaluation_times=evaluation_times, **extra)
+
+            @property
+            def _base_tag(self):
+                return "norm_probe"
+
+            def apply(self, *, config, state, **kwargs):
+                return float(state.norm())
+
+        _PROBE["cls"] = NormProbe
+    return _PROBE["cls"](evaluation_times)
+
+
+def fill_norms(res, et):
+    return [float(res.get_result("norm_probe", t)) for t in et]
+
+
+def good_indices(case):
+    bad = case.get("bad")
+    return [i for i in range(case["n"]) if not (bad and bad[i])]
+
+
+def sub_problem(prob, good):
+    """The problem restricted to the well-prepared atoms (badly prepared atoms stay in |g> and do not interact)."""
+    q = dict(prob)
+    q["n"] = len(good)
+    for k in ("omega", "delta", "phi"):
+        q[k] = np.asarray(prob[k])[:, good]
+    q["U"] = np.asarray(prob["U"])[np.ix_(good, good)]
+    return q
 
 
 class RandProxy:
@@ -439,17 +489,27 @@ def gen_noise_spec(rng, kind, d):
     raise ValueError(kind)
 
 
-def gen_case(rng, kind, n, M, coarse=False):
+def gen_bad_mask(rng, n):
+    """1-2 badly prepared atoms among n >= 3, at least two well-prepared ones (emu-mps needs >= 2 sites)."""
+    nbad = 1 if n == 3 else rng.choice([1, 2])
+    idx = rng.sample(range(n), nbad)
+    return [i in idx for i in range(n)]
+
+
+def gen_case(rng, kind, n, M, coarse=False, bad=None, reorder=False):
     """coarse: 6 steps of 40 ns — only for n = 2, where a TDVP step is ONE exact two-site exponential (no splitting
     error), which makes trajectories cheap enough for thousands of samples."""
     d = 3 if kind == "leakage" else 2
     steps = 20 if n <= 3 else 14
     dt = 10.0
-    if coarse and n == 2:
+    ngood = n - (sum(bad) if bad else 0)
+    if coarse and ngood == 2:
         steps, dt = 6, 40.0
+    elif ngood <= 3:
+        steps = 20
     return {"kind": "stat", "noise_kind": kind, "n": n, "d": d, "steps": steps, "dt": dt, "scale": 3.0,
             "phases": rng.random() < 0.6, "prob_seed": rng.randrange(10 ** 6), "noise": gen_noise_spec(rng, kind, d),
-            "M": M, "seed": rng.randrange(2 ** 31)}
+            "M": M, "seed": rng.randrange(2 ** 31), "bad": bad, "reorder": reorder}
 
 
 def empirical_bernstein_threshold(var, M, delta):
@@ -469,28 +529,29 @@ def bernstein_threshold(p, M, delta):
 
 def run_trajectories(case, prob, ops, check_states):
     import emu_mps
-    from pulser.backend import Occupation, StateResult
+    from pulser.backend import Occupation
 
     n, d, M = case["n"], case["d"], case["M"]
+    bad, reorder = case.get("bad"), case.get("reorder", False)
     et = [0.5, 1.0]
+    total = prob["times"][-1]
+    et_all = [t / total for t in prob["times"][1:]]
     acc = np.zeros((2, n))
     acc2 = np.zeros((2, n))
     problems = []
     pyrandom.seed(case["seed"])
     for m in range(M):
         obs = [Occupation(evaluation_times=et)]
-        with_state = m < check_states
-        if with_state:
-            obs.append(StateResult(evaluation_times=et))
-        res = emu_mps.MPSBackend._run_from_sequence_data(_seqdata(prob, ops, d), _config(obs))
+        if m < check_states:
+            obs.append(norm_probe(et_all))
+        res = emu_mps.MPSBackend._run_from_sequence_data(_seqdata(prob, ops, d, bad), _config(obs, reorder=reorder))
         o = np.array([[float(x) for x in res.get_result("occupation", t)] for t in et])
         if (o < -1e-9).any() or (o > 1 + 1e-9).any() or not np.isfinite(o).all():
             problems.append(("occupation outside [0,1]", m, o.tolist()))
-        if with_state:
-            for t in et:
-                nv = float(res.get_result("state", t).norm())
-                if abs(nv - 1.0) > 1e-9:
-                    problems.append(("state passed to observables is not normalised", m, nv))
+        if m < check_states:
+            nv = fill_norms(res, et_all)
+            if max(abs(x - 1.0) for x in nv) > 1e-9:
+                problems.append(("state handed to the observables is not normalised (norms at the fills)", m, nv))
         acc += o
         acc2 += o * o
     mean = acc / M
@@ -502,9 +563,12 @@ def stat_case(ctx, case, delta):
     prob = make_prob(case)
     n, d, M = case["n"], case["d"], case["M"]
     ops = noise_ops(case["noise"], d)
-    ref = lindblad_reference(prob, ops, d)
+    good = good_indices(case)
+    ref = lindblad_reference(sub_problem(prob, good), ops, d)
     steps = prob["steps"]
-    refo = np.array([occ_rho(ref[steps // 2], n, d), occ_rho(ref[steps], n, d)])
+    refo = np.zeros((2, n))          # badly prepared atoms stay in |g>: occupation 0
+    refo[0, good] = occ_rho(ref[steps // 2], len(good), d)
+    refo[1, good] = occ_rho(ref[steps], len(good), d)
     try:
         mean, sd, problems = run_trajectories(case, prob, ops, check_states=M)
     except Exception as ex:
@@ -535,26 +599,44 @@ def stat_case(ctx, case, delta):
 def det_case(ctx, case):
     """case: like a stat case plus 'u1' (None = no jump) and 'choice' (index in the candidate list)."""
     import emu_mps
-    from pulser.backend import Occupation, StateResult
+    from pulser.backend import Occupation
+    from emu_mps.mps_backend_impl import create_impl
 
-    prob = make_prob(case)
-    n, d = case["n"], case["d"]
+    full_prob = make_prob(case)
+    n_full, d = case["n"], case["d"]
+    bad, reorder = case.get("bad"), case.get("reorder", False)
+    good = good_indices(case)
+    prob, n = sub_problem(full_prob, good), len(good)      # the reference lives on the well-prepared atoms
     ops = noise_ops(case["noise"], d)
     k = len(ops)
-    jump = divmod(case["choice"], k)
+    # chain site s of the real run holds atom perm[s]; the well-prepared ones, in chain order:
+    perm = [int(x) for x in create_impl(_seqdata(full_prob, ops, d, bad),
+                                        _config([], reorder=reorder)).qubit_permutation]
+    chain = [good.index(a) for a in perm if a in good]   # chain site -> position in the reference register
+
+    def to_ref(choice):
+        site, kk = divmod(choice, k)
+        return (chain[site], kk)
+
+    def chain_weights(w):
+        return [w[chain[site] * k + kk] for site in range(n) for kk in range(k)]
+
+    choice = case["choice"] % (n * k)
+    jump = to_ref(choice)
     u1 = None
     if case["u_frac"] is not None:
         n2_nojump = scripted_reference(prob, ops, d, None, jump)[0]
         if 1.0 - n2_nojump > 0.05:          # otherwise the squared norm hardly decays: run it as a no-jump case
             u1 = 1.0 - case["u_frac"] * (1.0 - n2_nojump)
-    choice = case["choice"]
     with np.errstate(all="ignore"):
         n2_ref, psi_ref, tj, wj = scripted_reference(prob, ops, d, u1, jump)
-    if wj is not None and wj[choice] < 0.05 * max(wj):
+    if wj is not None and chain_weights(wj)[choice] < 0.05 * max(wj):
         # random.choices never picks a candidate of (almost) zero weight: script a possible one instead
-        choice = int(np.argmax(wj))
-        jump = divmod(choice, k)
+        choice = int(np.argmax(chain_weights(wj)))
+        jump = to_ref(choice)
         n2_ref, psi_ref, tj, wj = scripted_reference(prob, ops, d, u1, jump)
+    if wj is not None:
+        wj = chain_weights(wj)
     proxy = RandProxy(uniforms=[u1] if u1 is not None else [], choice_index=choice)
     impl_holder = {}
     import emu_mps.mps_backend as mb
@@ -564,20 +646,29 @@ def det_case(ctx, case):
         impl_holder["impl"] = orig_create(data, config)
         return impl_holder["impl"]
 
+    total = full_prob["times"][-1]
+    et_all = [t / total for t in full_prob["times"][1:]]
     mb.create_impl = create
     try:
         with rebound_random(proxy):
             res = emu_mps.MPSBackend._run_from_sequence_data(
-                _seqdata(prob, ops, d),
-                _config([Occupation(evaluation_times=[1.0]), StateResult(evaluation_times=[1.0])], precision=1e-8))
+                _seqdata(full_prob, ops, d, bad),
+                _config([Occupation(evaluation_times=[1.0]), norm_probe(et_all)], precision=1e-8, reorder=reorder))
     except Exception as ex:
         ctx.violation(f"emu-mps raised on a scripted trajectory: {ex!r}", {"case": case, "finding_key": "e2e-raises"})
         return None
     finally:
         mb.create_impl = orig_create
+    norms = fill_norms(res, et_all)
+    if max(abs(x - 1.0) for x in norms) > 1e-9:
+        worst_i = int(np.argmax([abs(x - 1.0) for x in norms]))
+        ctx.violation(f"the state handed to the observables at t={et_all[worst_i]:.3f} has norm {norms[worst_i]:.6f} "
+                      f"(not normalised); bad atoms {bad}", {"case": case, "norms": norms,
+                                                             "finding_key": "fill-not-normalised"})
     impl = impl_holder["impl"]
     occ = np.array([float(x) for x in res.get_result("occupation", 1.0)])
-    occ_ref = occ_vec(psi_ref, n, d)
+    occ_ref = np.zeros(n_full)          # badly prepared atoms stay in |g>
+    occ_ref[good] = occ_vec(psi_ref, n, d)
     njumps = len(proxy.choices_calls)
     out = {"njumps": njumps, "occ_err": float(np.abs(occ - occ_ref).max()), "u1": u1, "choice": choice}
     if u1 is None or tj is None:
@@ -611,13 +702,13 @@ def det_case(ctx, case):
     return out
 
 
-def gen_det_case(rng, kind, n, jump):
-    c = gen_case(rng, kind, n, 1)
+def gen_det_case(rng, kind, n, jump, bad=None, reorder=False):
+    c = gen_case(rng, kind, n, 1, bad=bad, reorder=reorder)
     c["kind"] = "det"
     d = c["d"]
     k = len(noise_ops(c["noise"], d))
     c["u_frac"] = round(rng.uniform(0.15, 0.85), 3) if jump else None   # threshold as a fraction of the total decay
-    c["choice"] = rng.randrange(n * k)
+    c["choice"] = rng.randrange((n - (sum(bad) if bad else 0)) * k)
     return c
 
 
@@ -634,6 +725,15 @@ def falsifier_stage(ctx):
     for i in range(ndet):
         det.append(gen_det_case(ctx.rng, kinds[i % 6], [2, 3, 2, 2, 3, 4][i % 6] if ctx.thorough() else [2, 3, 2][i % 3],
                                 jump=(i % 4 != 0)))
+    # Lindblad noise TOGETHER with badly prepared atoms (state_prep_error > 0): fill_results pads the state to the
+    # full register; 3-5 atoms, 1-2 bad, with and without qubit reordering; two levels only (qutrit + bad atom is F-14)
+    kinds2 = ["relaxation", "dephasing", "depolarizing", "effective", "mixed"]
+    for i in range(ctx.n(10, 60)):
+        nt = [3, 4, 5, 4][i % 4]
+        det.append(gen_det_case(ctx.rng, kinds2[i % 5], nt, jump=(i % 3 != 0), bad=gen_bad_mask(ctx.rng, nt),
+                                reorder=(i % 2 == 1)))
+    for i in range(ctx.n(2, 10)):      # reordering without bad atoms
+        det.append(gen_det_case(ctx.rng, kinds2[i % 5], [3, 4][i % 2], jump=True, reorder=True))
     if ctx.thorough():
         plan = [("relaxation", 2, 2500), ("dephasing", 2, 2500), ("depolarizing", 2, 2500), ("effective", 2, 2500),
                 ("leakage", 2, 2500), ("mixed", 2, 500), ("mixed", 3, 300), ("leakage", 3, 300), ("relaxation", 4, 300),
@@ -642,10 +742,15 @@ def falsifier_stage(ctx):
         plan = [("mixed", 2, 600), ("leakage", 2, 600), ("effective", 3, 100)]
     for kind, n, M in plan:
         stat.append(gen_case(ctx.rng, kind, n, M, coarse=(M >= 600)))
+    # statistical cases with one badly prepared atom among three (two well-prepared: cheap, exact TDVP step)
+    for i in range(ctx.n(1, 3)):
+        stat.append(gen_case(ctx.rng, ["mixed", "relaxation", "effective"][i], 3, ctx.n(400, 1500), coarse=True,
+                             bad=gen_bad_mask(ctx.rng, 3), reorder=(i == 1)))
     worst_det, njump_hist = {}, {}
     for c in det:
         r = det_case(ctx, c)
-        ctx.count_case({"kind": "det", "noise": c["noise_kind"], "n": c["n"], "u_frac": c["u_frac"],
+        ctx.count_case({"kind": "det", "noise": c["noise_kind"], "n": c["n"], "bad": c.get("bad"),
+                        "reorder": c.get("reorder", False), "u_frac": c["u_frac"],
                         "choice": c["choice"], "result": r}, nontrivial=True)
         if r:
             njump_hist[r["njumps"]] = njump_hist.get(r["njumps"], 0) + 1
@@ -658,6 +763,7 @@ def falsifier_stage(ctx):
     for c in stat:
         w = stat_case(ctx, c, delta)
         ctx.count_case({"kind": "stat", "noise": c["noise_kind"], "n": c["n"], "d": c["d"], "M": c["M"],
+                        "bad": c.get("bad"), "reorder": c.get("reorder", False),
                         "noise_spec": str(c["noise"])[:200], "worst_dev_over_threshold": w}, nontrivial=True)
         if w is not None:
             worst = max(worst, w)
@@ -678,8 +784,10 @@ def run(ctx):
     ctx.rule = ("(a) init_lindblad_noise: 1-5 Gaussian-integer / quarter-integer 2x2 jump operators, exact. (b) "
                 "do_random_quantum_jump: random MPS (2-3 sites, bond 1-2, norm 0.5-1), 1-3 random complex operators, "
                 "scripted choice and threshold. (c) deterministic scripted trajectories (no jump / one forced jump) for "
-                "relaxation, dephasing, depolarizing, effective, leakage (3 levels), mixed noise, 2-4 atoms, against a "
-                "dense H_eff evolution. (d) statistical: trajectory averages (python random seeded from ctx.rng) of "
+                "relaxation, dephasing, depolarizing, effective, leakage (3 levels), mixed noise, 2-4 atoms, and 3-5 atoms "
+                "with 1-2 badly prepared atoms (state_prep_error > 0) with and without qubit reordering, against a "
+                "dense H_eff evolution of the well-prepared atoms; the norm of the state handed to the observables is "
+                "probed at EVERY fill. (d) statistical: trajectory averages (python random seeded from ctx.rng) of "
                 "occupations at t = T/2 and T against the dense Lindblad reference; acceptance by the smaller of "
                 "Bernstein's bound with variance p(1-p) and the empirical Bernstein bound (Maurer-Pontil), Bonferroni "
                 "over all (case, time, atom) tests; n = 2 cases with >= 600 trajectories use 6 steps of 40 ns (one "
